@@ -10,7 +10,7 @@ observable and checked against generic invariants.
 from .. import flowcheck
 from .. import floworacle as fo
 
-LEAN_MODULES = ['Props.C04', 'Props.Agreement']
+LEAN_MODULES = ['Props.C04', 'Props.Agreement', 'Props.Translated_C04']
 TRUSTED = ['harness/flow_impl.py (yaml renderer, canonicaliser, virtual clock, scripted random.uniform)',
            'harness/probe/vprobe.py (probe step) and its model probeStep',
            'harness/floworacle.py (directed expectations written from the property text)',
@@ -81,11 +81,24 @@ def truth_table(env, res):
                 res.violation(case, f'{form} decorator value {v!r} evaluates {got}, the truth rule says {want}',
                               signature={'family': 'c04-truth', 'form': form, 'value': repr(v)})
 
+def extract(env):
+    """Translate pypyr/utils/types.py of the tree under test into Lean definitions (harness/translate.py ->
+    lean/Generated/Translated*.lean, ast only); Props/Translated_C04.lean proves them equal to the hand-written
+    model definitions. Outside the translatable subset this raises (-> proof problem). Thorough tier: also
+    run the translated definitions against the real functions on random inputs (harness/translate_selftest.py)."""
+    from .. import translate
+    translate.generate(['C04'])
+    if not env.quick and not env.escalated:
+        from .. import translate_selftest
+        translate_selftest.check(['C04'], env.seed)
+
 
 def run(env, res):
     truth_table(env, res)
     res.rule = ('directed families (expectation from the property text) first, then seeded random pipelines '
-                '(1-3 pipelines, 1-4 groups, 0-4 steps per group, decorators with p~0.25 each); a case is '
+                '(1-3 pipelines, 1-4 groups, 0-4 steps per group, decorators with p~0.25 each, foreach items incl. '
+                'None/0/\'\'/False/[]/{}, 12% with a malformed group body or sequence item, 35% written in another '
+                'yaml layout: flow style, JSON, first step on line 1, other indentation); a case is '
                 'non-trivial when the model accepts it and it terminates; distinct by canonical program text')
     directed = [('c04', fo.c04_family, env.n(200, 100000))]
     flowcheck.run_streams(env, res, directed, env.n(500, 20000), weights={'fail': 5, 'set': 2},
